@@ -180,6 +180,22 @@ fn run_case(line: &str) -> R<String> {
             let v = r.log.borrow().len();
             format!("{} viol={}", print_mres(&res, r.len()), v)
         }
+        "DECSEQ" => {
+            let b = unhex(arg(2))?;
+            let mut r = SliceReader::from(&b);
+            let mut out = vec![];
+            let mut k = 0;
+            while !r.is_empty() && k < 64 {
+                let res = Message::<&[u8]>::try_read_validate(&mut r, opts_of(arg(1))?);
+                let stop = res.is_err();
+                out.push(print_mres(&res, r.len()));
+                if stop {
+                    break;
+                }
+                k += 1;
+            }
+            out.join(" | ")
+        }
         "AVPS" => {
             let b = unhex(arg(1))?;
             let mut r = SliceReader::from(&b);
